@@ -480,7 +480,7 @@ func writeReplayDir(dir string, P *Program, hs HarnessSpec, ts TierSpec, v Viola
 	if err := os.MkdirAll(dir, 0o755); err != nil {
 		return err
 	}
-	vec := map[string]interface{}{"harness": hs.Name, "params": ts.Params, "nondets": v.Model, "kind": v.Kind, "label": v.Msg, "where": v.Where}
+	vec := map[string]interface{}{"harness": hs.Name, "params": ts.Params, "nondets": v.Model, "yields": v.Yields, "kind": v.Kind, "label": v.Msg, "where": v.Where}
 	b, _ := json.MarshalIndent(vec, "", " ")
 	if err := os.WriteFile(filepath.Join(dir, "vector.json"), b, 0o644); err != nil {
 		return err
